@@ -11,7 +11,7 @@ func genConfig(job *simkit.Job, rng *simkit.RNG) Config {
 	if p := job.Args["profile"]; p != "" {
 		prof = p
 	}
-	return Config{Profile: prof, Frag: []int{0, 0, 1, 7, 200}[rng.Intn(5)], ChanCap: 1024, Steps: rng.Range(12, 60)}
+	return Config{Profile: prof, Frag: []int{0, 0, 1, 7, 200}[rng.Intn(5)], ChanCap: 1024, Steps: rng.Range(12, 60), CoarseDisk: rng.Chance(1, 2)}
 }
 
 var hostsPool = []string{"kittens.com", "kittens.com:4444", "xn--bcher-kva.example", "10.9.8.7", "10.9.8.7:443", "moose.example.org:1", "[2001:db8::2]:8443"}
@@ -31,7 +31,7 @@ func (s *sim) genBoot() Action {
 	a.Listen = forms[r.Intn(len(forms))]
 	a.Cache = r.Chance(1, 2)
 	n := r.Pick([]int{4, 3, 2})
-	pool := []string{"cb.example.com", "cb.example.com:8443", "203.0.113.7", "203.0.113.7:443", "[2001:db8::1]:4443", "kittens.test:1"}
+	pool := []string{"cb.example.com", "cb.example.com:8443", "203.0.113.7", "203.0.113.7:443", "[2001:db8::1]:4443", "kittens.test:1", "2001:db8::1"}
 	for i := 0; i < n; i++ {
 		a.CB = append(a.CB, pool[r.Intn(len(pool))])
 	}
@@ -79,12 +79,12 @@ func (s *sim) generate() (Action, bool) {
 		}
 	}
 	prof := s.cfg.Profile
-	w := map[string]int{"boot": 100, "stop": 3, "get_c": 10, "tmpl": 4, "run_script": 6, "open": 6, "bad": 3, "line": 8, "out": 8, "close": 4, "sleep": 3, "del_cache": 1, "probe": 2, "io": 2}
+	w := map[string]int{"boot": 100, "stop": 3, "get_c": 10, "tmpl": 4, "run_script": 6, "open": 6, "bad": 3, "line": 8, "out": 8, "close": 4, "sleep": 3, "del_cache": 1, "probe": 2, "io": 2, "burst": 2, "regen": 1}
 	switch prof {
 	case "C05":
-		w["stop"], w["get_c"], w["run_script"], w["close"], w["del_cache"] = 8, 12, 8, 8, 2
+		w["stop"], w["get_c"], w["run_script"], w["close"], w["del_cache"], w["regen"] = 8, 12, 8, 8, 2, 3
 	case "C07":
-		w["get_c"], w["tmpl"], w["run_script"], w["stop"] = 30, 12, 8, 2
+		w["get_c"], w["tmpl"], w["run_script"], w["stop"], w["burst"] = 30, 12, 8, 2, 8
 	case "C12":
 		w["open"], w["bad"], w["line"], w["out"], w["close"], w["sleep"], w["get_c"], w["io"] = 12, 6, 10, 10, 5, 6, 3, 4
 	}
@@ -96,6 +96,8 @@ func (s *sim) generate() (Action, bool) {
 	add(Action{K: "tmpl", T: kinds[r.Intn(len(kinds))], N: s.tmplSerial}, w["tmpl"])
 	add(Action{K: "run_script"}, w["run_script"])
 	add(Action{K: "del_cache"}, w["del_cache"])
+	add(Action{K: "regen_cache"}, w["regen"])
+	add(Action{K: "burst_c", N: r.Range(2, 6)}, w["burst"])
 	add(Action{K: "probe"}, w["probe"])
 	add(Action{K: "sleep", Ms: []int{1, 100, 1900, 2100, 5000, 60000}[r.Intn(6)]}, w["sleep"])
 	live := s.liveSession()
